@@ -729,6 +729,9 @@ pub fn run(opts: &Opts) -> Report {
     if want("gates") {
         gates_part(&mut rep, opts);
     }
+    if want("storm") {
+        crate::props::storm::query_storm(&mut rep, opts);
+    }
     if want("clones") {
         let n = if cfg!(miri) { 2 } else { opts.n(600, 20000) };
         for case in 0..n {
